@@ -43,6 +43,12 @@ def run(ck):
     R5 = ck.rule('R10.5', "the instability error is an EdzedCircuitError and is not swallowed",
                  'M0', 2)
 
+    R6 = ck.rule('R10.6', "idle => consistent (the part that is not C01's): a stored output change "
+                 "is queued for the simulator before any event delivery can fail, so that no "
+                 "change is lost when an on_output event raises a non-fatal error", 'M1', 1)
+    from rules.shared import enqueue_before_anything_can_fail
+    enqueue_before_anything_can_fail(ck, R6)
+
     sl = SimLoop(ck, R1)
     g, fi = sl.cfg, sl.fi
     # the raising limit test
@@ -108,6 +114,18 @@ def run(ck):
     resets = nodes_where(g, lambda n: isinstance(n.ast, ast.Assign) and
                          isinstance(n.ast.targets[0], ast.Name) and n.ast.targets[0].id == counter
                          and n.id in sl.loop_nodes and n not in incs)
+    # local helper functions that write the counter through `nonlocal`: each call is a reset site
+    helpers = {}
+    for st_ in ast.walk(fi.node):
+        if isinstance(st_, (ast.FunctionDef, ast.AsyncFunctionDef)) and st_ is not fi.node and any(
+                isinstance(x, ast.Nonlocal) and counter in x.names for x in ast.walk(st_)):
+            w_ = [x for x in ast.walk(st_) if isinstance(x, (ast.Assign, ast.AugAssign)) and any(
+                isinstance(t, ast.Name) and t.id == counter
+                for t in (x.targets if isinstance(x, ast.Assign) else [x.target]))]
+            if w_:
+                helpers[st_.name] = w_
+    helper_calls = nodes_where(g, lambda n: n.id in sl.loop_nodes and any(
+        isinstance(c.func, ast.Name) and c.func.id in helpers for c in node_calls(n)))
     idle = sl.idle_get()
     ck.need(R2, len(idle) == 1, f"_simulate: expected one awaited queue.get(), found {len(idle)}")
     okidle = sl.idle_facts(idle[0])
@@ -121,7 +139,15 @@ def run(ck):
               "the counter restarts only after the idle wait" if ok else
               "the counter is reset inside a burst: feedback through events would never be "
               "detected", fi, r.ast)
-    ck.need(R2, resets, "_simulate: no counter reset inside the loop (unrecognised structure)")
+    for r in helper_calls:
+        hname = [c.func.id for c in node_calls(r) if isinstance(c.func, ast.Name) and c.func.id in helpers][0]
+        ok = g.dominates(idle[0], r) and all(isinstance(w_, ast.Assign) and isinstance(w_.value, ast.Constant)
+                                             for w_ in helpers[hname])
+        ck.ob(R2, f"{SIMULATE} :: {norm1(r.ast)} (writes {counter} through nonlocal)", ok,
+              "the helper that restarts the counter is called only after the idle wait" if ok else
+              f"`{hname}()` writes the evaluation counter and is called inside a burst: feedback "
+              f"through events would never be detected (the simulator spins forever)", fi, r.ast)
+    ck.need(R2, resets or helper_calls, "_simulate: no counter reset inside the loop (unrecognised structure)")
     # other writers of the counter inside the loop
     others = nodes_where(g, lambda n: n.id in sl.loop_nodes and n not in incs and n not in resets
                          and counter in __import__('sa.dataflow', fromlist=['node_defs']).node_defs(n))
